@@ -49,9 +49,21 @@ func VfC15_History() {
 			typ := Type(nd.Concrete(nd.IntRange("type", int(TypeMain), int(TypeBackup))))
 			h := NewWithType(addr, typ)
 			if op == 0 {
+				old := members[addr]
 				set.Add(h)
-				members[addr] = h
-				seen = append(seen, h)
+				// which object is the member after an address is announced again is the set's
+				// choice (the fresh one or the old one); it must be one of them, of the
+				// announced type, and an object that stops being the member is signalled
+				m := set.all[addr]
+				nd.Assert(m != nil && (m == h || m == old) && m.Addr == addr && m.Type == typ, "after Add the address is a member of the announced type")
+				if m == nil {
+					return
+				}
+				if old != nil && old != m {
+					nd.Assert(vfRemoved(old), "a member replaced by a new announcement is signalled as removed")
+				}
+				members[addr] = m
+				seen = append(seen, m)
 			} else {
 				set.Remove(h)
 				if old, ok := members[addr]; ok {
@@ -134,8 +146,8 @@ func VfC15_MarkVsRemove() {
 	nd.Quiesce()
 	for _, g := range set.Healthy() {
 		nd.Assert(!vfRemoved(g), "a removed host is never reported as usable, whatever the interleaving of mark and removal")
-		nd.Assert(g != h || !replace, "a replaced host object is not reported")
+		nd.Assert(set.all[g.Addr] == g, "every usable host is the current member for its address (no replaced object is reported)")
 	}
-	nd.Assert(vfRemoved(h), "the removed (or replaced) member is signalled")
+	nd.Assert(vfRemoved(h) || set.all[h.Addr] == h, "a host that is no longer the member for its address is signalled as removed")
 	nd.Cover("raced")
 }
